@@ -28,7 +28,7 @@ def oblige(self, name, formula, kind="post", detail="", assume_after=True):
         self.assume(z3.simplify(formula))
     return ob
 interp.Path.oblige = oblige
-allc = []
+allc = list(mod.CONTRACTS)
 for pid, info in registry.PROPERTIES.items():
     for m in (info["modules"] if pid == PID else []):
         for c in importlib.import_module(m).CONTRACTS:
